@@ -261,6 +261,20 @@ def Ldb.update (d : Disk) (h new : Ldb) : Disk × Ldb × Ldb × WRes :=
       else (d5.setLock target true, { h1 with isOpen := true }, new1, .ok)
     | _, _ => (d3, h1, new1, .error)                   -- source missing or target exists
 
+/-! ## The serializer's own limit (asn1serializer.go, crlreader.CRLMetaInfo) -/
+
+/-- How `asn1.Marshal` writes a `time.Time`: UTCTime content for years 1950..2049, GeneralizedTime content otherwise. -/
+inductive TimeForm | utc | generalized
+  deriving DecidableEq, Repr
+
+def marshalTimeForm (year : Nat) : TimeForm := if 1950 ≤ year ∧ year < 2050 then .utc else .generalized
+
+/-- `CRLMetaInfo.NextUpdate` carries `asn1:"tag:0,optional"` (implicit tag, no `generalized`): the tag hides which
+form was written and `asn1.Unmarshal` reads the content as UTCTime. `none` = field absent (zero time, omitted). -/
+def metaNextUpdateReadable : Option Nat → Bool
+  | none => true
+  | some year => marshalTimeForm year == .utc
+
 /-! ## Operation sequences (C18) -/
 
 /-- Operations on one store: a write of an entry or of a metadata slot (`StartUpdateCrl`, `InsertRevokedCert`,
@@ -379,6 +393,7 @@ def AnyStore.lookup (dec : Kind → Val → Bool) (d : Disk) : AnyStore → List
 structure Entry where
   loaded : Bool
   store : Option AnyStore
+  closed : Bool := false     -- Entry.Closed: set by Repository.Close
 
 /-- Outcome of `checkCrl` (and of `IsRevoked`): a status, an error, or a nil dereference. -/
 inductive Chk | notRevoked | revoked (v : Val) | error | panic
@@ -390,13 +405,15 @@ def chkOf (r : Generated.Store.CRet) (status : Chk) : Chk :=
   | .passStatus => status
   | .error => .error
   | .panic => .panic
+  | .skip => status
 
 /-- `Repository.checkCrl` for one identifier; `none` = no entry under that identifier (or a nil entry). -/
 def checkCrl (dec : Kind → Val → Bool) (d : Disk) (e : Option Entry) (i : List UInt8) (n : Int) : Chk :=
   match e with
   | none => chkOf Generated.Store.checkFallthrough .notRevoked
   | some e =>
-    if e.loaded then
+    if e.closed && Generated.Store.checkOnClosed != .skip then chkOf Generated.Store.checkOnClosed .notRevoked
+    else if e.loaded then
       match e.store with
       | none => chkOf Generated.Store.checkOnStoreNil .notRevoked
       | some st =>
@@ -421,24 +438,41 @@ def isRevoked (dec : Kind → Val → Bool) (d : Disk) (gateError : Bool) (es : 
     (i : List UInt8) (n : Int) : Chk :=
   if gateError then .error else walk dec d i n es
 
-/-- `entry.CRLStore.Close()`; `none` = nil dereference (the store was dropped by a failed swap). -/
-def closeStore (d : Disk) : Option AnyStore → Option Disk
-  | some (.map _) => some d
-  | some (.ldb h) => some (h.close d).1
-  | none => none
+/-- `entry.CRLStore.Close()`: the disk handle is closed (and its LOCK released), the memory store is untouched. -/
+def closeStore (d : Disk) : AnyStore → Disk × AnyStore
+  | .map m => (d, .map m)
+  | .ldb h => let (d1, h1) := h.close d; (d1, .ldb h1)
 
-/-- `Repository.Close` (called by `Cleanup`): every entry's store is closed and its slot in the repository map is set
-to nil — the identifier stays in the map. `none` = panic (a nil entry from an earlier Close, or a nil store). -/
+/-- `Repository.closeRepositoryEntry`, following the regenerated facts about its shape: the repaired code closes the
+store (if there is one), keeps the entry and marks it closed, and does nothing on an entry that is already closed;
+the earlier code closed the store unconditionally and set the map slot to nil. Outer `none` = nil dereference. -/
+def closeEntry (d : Disk) (e : Option Entry) : Option (Disk × Option Entry) :=
+  match e with
+  | none => none                                        -- entry.entryLock of a nil entry
+  | some e =>
+    if Generated.Store.closeIdempotent && e.closed then some (d, some e)
+    else
+      match e.store with
+      | none =>
+        if Generated.Store.closeNilStoreGuard then
+          some (d, if Generated.Store.closeDropsEntry then none
+                   else some { e with closed := e.closed || Generated.Store.closeMarksClosed })
+        else none                                       -- entry.CRLStore.Close() on a nil store
+      | some st =>
+        let (d1, st1) := closeStore d st
+        some (d1, if Generated.Store.closeDropsEntry then none
+                  else some { e with store := some st1, closed := e.closed || Generated.Store.closeMarksClosed })
+
+/-- `Repository.Close` (called by `Cleanup`): `closeRepositoryEntry` for every entry. `none` = panic. -/
 def repoClose (d : Disk) : List (Option Entry) → Option (Disk × List (Option Entry))
   | [] => some (d, [])
-  | none :: _ => none
-  | some e :: rest =>
-    match closeStore d e.store with
+  | e :: rest =>
+    match closeEntry d e with
     | none => none
-    | some d1 =>
+    | some (d1, e1) =>
       match repoClose d1 rest with
       | none => none
-      | some (d2, es) => some (d2, none :: es)
+      | some (d2, es) => some (d2, e1 :: es)
 
 /-- `updateCrlEntry` after a failed `updateEntry` (directory swap failed): `deleteEntrySync` drops the k-th entry. -/
 def failedSwap (es : List (Option Entry)) (k : Nat) : List (Option Entry) := es.eraseIdx k
